@@ -379,9 +379,19 @@ def encode(case, obs):
 
 # ------------------------------------------------------------------ running
 
+def crashed(case, reason):
+    return {'obs': None, 'fails': [{'clause': 'crash-or-hang', 'site': case.get('mode'),
+                                    'what': 'the implementation worker died on this triangle set: %s' % reason}]}
+
+
 def run_impl_cases(cases, chunk=120):
+    from concurrent.futures import ThreadPoolExecutor
     chunks = [cases[i:i + chunk] for i in range(0, len(cases), chunk)]
-    outs = core.run_impl_parallel('c18', [{'cases': ch} for ch in chunks])
+
+    def one(ch):
+        return core.run_cases_bisect('c18', ch, lambda cs: {'cases': cs}, crashed, timeout=120)
+    with ThreadPoolExecutor(max_workers=core.NCPU) as ex:
+        outs = list(ex.map(one, chunks))
     return [r for out in outs for r in out]
 
 
